@@ -38,7 +38,8 @@ TRUSTED = [
     "Model/Units.v: dspec (dimensional analysis) and the domain predicate in_domain are the hand-written specification",
 ]
 ASSUMPTIONS = [
-    "no compound-unit definitions active (property text); C18 covers definitions",
+    "no compound-unit definitions active WHEN a tree is built (property text); definitions may have been active, used and "
+    "cleared through clear_unit_definitions() earlier in the same interpreter (covered by the sessions); C18 covers definitions",
     "every non-constant operand of every operation carries a unit of non-zero dimension (property text: trees with a "
     "dimensionless or unit-less intermediate result are outside the domain)",
     "exponents are rationals; the implementation computes them in floats, exact for the dyadic exponents of the generated cases",
@@ -180,15 +181,50 @@ def correspondence(ctx):
                 "different order; 12% constants; 3% operators without unit rule; zero exponents and unit-less leaves in the malformed "
                 "share); observed: ordered items of ._unit at the root, mismatch warning as boolean, .unit re-read (10% in fraction "
                 "style). Plus direct operate_with_units calls on random exponent maps (zeros, empties, permutations, operators outside "
-                "UNIT_OPERATIONS, wrong arity). non-trivial = a tree with a binary operator whose result has a unit or a warning / an "
+                "UNIT_OPERATIONS, wrong arity). Plus sessions from a fresh library state: definitions made and USED, then "
+                "clear_unit_definitions(), then trees over the formerly defined names as plain symbols (every use compared with the "
+                "model under the definitions in force at that step). non-trivial = a tree with a binary operator whose result has a unit or a warning / an "
                 "operate call with a non-empty result or warning (distinct by content)")
     res.samples = [e[1]["case"] for e in entries[:2]] + [e[1]["case"] for e in op_entries[:2]]
     if skipped:
         res.count("skipped:unit-string-not-parsed-as-intended", skipped)
+    # definitions WERE active earlier in the same interpreter and have been cleared through the public API: the model of the
+    # uses after the clear is the one without definitions (every use is compared, the ones before the clear under d_run)
+    sessions = (ul.aftermath_templates() if not ctx.quick else rng.sample(ul.aftermath_templates(), 4)) + \
+        [ul.gen_aftermath_session(rng) for _ in range(ctx.n(60, 1200))]
+    se_entries = []
+    for steps in sessions:
+        style = ul.rand_style(rng, 0.6)
+        try:
+            sobs = ul.run_session(steps, style)
+        except ul.CaseInvalid:
+            continue
+        case = {"steps": steps, "style": style}
+        if any(o.get("exc") == "crash" for o in sobs):
+            res.evaluations += len(sobs)
+            res.disagreements.append({"name": "the implementation raised {} where the model returns".format(
+                [o["what"] for o in sobs if o.get("exc") == "crash"][0]), "kind": "session", "case": case})
+            continue
+        if not all(o["exact"] for o in sobs):
+            res.count("skipped:inexact-float-exponent")
+            continue
+        showns = [ul.shown_items(o, False) for o in sobs]
+        res.evaluations += len(sobs)
+        res.traces += 1
+        res.count("session:define-use-clear-use")
+        res.nontrivial.add(core.canonical_key("s", steps))
+
+        def mk(enc, steps=steps, sobs=sobs, showns=showns):
+            return enc.session(steps, sobs, showns)
+        se_entries.append((mk, {"kind": "session", "case": case}))
+    dis2, failures2 = ul.eval_shards(ID + "s", [("check_session", se_entries)], keep=getattr(ctx, "keep_cases", False), per=60)
     dis, failures = ul.eval_shards(ID, [("check_tree", entries), ("check_operate", op_entries)],
                                    keep=getattr(ctx, "keep_cases", False))
-    for f in failures:
+    for f in failures + failures2:
         res.disagreements.append({"name": f, "case": None})
+    for fn, payload in dis2:
+        res.disagreements.append({"name": "Model.Units.unit_of under d_run of the events so far (session) vs implementation",
+                                  "kind": "session", "case": payload["case"]})
     for fn, payload in dis:
         res.disagreements.append({"name": "Model.Units.{} vs implementation".format(
             "unit_of" if fn == "check_tree" else "operate_with_units"), "kind": payload["kind"], "case": payload["case"]})
@@ -197,6 +233,10 @@ def correspondence(ctx):
 
 # ---- oracle ----------------------------------------------------------------------------------------
 def check_case(case):
+    if "steps" in case:
+        # define / use / clear_unit_definitions() / use in ONE fresh library state: only the uses made while no definition
+        # is active are judged (every symbol is then a base unit), the earlier ones only have to have been computed
+        return ul.oracle_session(case["steps"], case.get("style"), only_undefined=True)
     if "session" in case:
         # several trees evaluated one after the other in ONE fresh library state; the last one is judged (the earlier ones
         # only have to have been computed: this is how state the library keeps between operations becomes part of the input)
@@ -214,6 +254,9 @@ def fails_alone(case):
 
 
 def report(case, why, journal=()):
+    if "steps" in case:
+        small = dict(case, steps=ul.shrink_session(case["steps"], case.get("style"), only_undefined=True))
+        return Violation(ID, "session", small, check_case(small) or why)
     if not fails_alone(case):
         # the tree is fine on its own: it fails because of what was computed before it in this process
         if check_case({"session": list(journal) + [case]}) is None:
@@ -239,14 +282,16 @@ def search(ctx, suspects, budget):
     t0 = time.time()
     rng = ctx.rng
     out, seen = [], set()
-    todo = [s["case"] for s in suspects if s.get("kind") == "tree" and s.get("case")]
-    todo += [c["case"] for c in ul.load_corpus(ID) if c.get("kind") == "tree"]
+    todo = [s["case"] for s in suspects if s.get("kind") in ("tree", "session") and s.get("case")]
+    todo += [c["case"] for c in ul.load_corpus(ID) if c.get("kind") in ("tree", "session")]
+    todo += [{"steps": st, "style": None} for st in ul.aftermath_templates()]
     # deterministic part: a sample of the small-scope family (all orderings) first
     d1, d2 = exhaustive_trees(ctx)
     fam = d1 + d2
     stride = max(1, len(fam) // ctx.n(1500, 12000))
     todo += [{"history": [], "tree": t, "frac": False, "style": ul.rand_style(rng, 0.7)} for t in fam[::stride]]
     n = 0
+    n_sessions = 0
     core.fresh_impl()
     journal = []
     while len(out) < 3:
@@ -254,6 +299,8 @@ def search(ctx, suspects, budget):
             case = todo.pop(0)
         elif time.time() - t0 > budget:
             break
+        elif rng.random() < 0.04:
+            case = {"steps": ul.gen_aftermath_session(rng), "style": ul.rand_style(rng, 0.6)}
         elif rng.random() < 0.08:
             t, idx, new = ul.gen_setunit(rng, [], oracle_leafgen)
             case = {"history": [], "tree": t, "idx": idx, "new": new, "style": ul.rand_style(rng, 0.6)}
@@ -262,6 +309,17 @@ def search(ctx, suspects, budget):
                     "frac": rng.random() < 0.1, "style": ul.rand_style(rng, 0.5)}
         n += 1
         if case.get("history"):
+            continue
+        if "steps" in case:        # define / use / clear / use: starts from a fresh library state by itself
+            n_sessions += 1
+            why = check_case(case)
+            if why:
+                v = report(case, why)
+                if v.key not in seen:
+                    seen.add(v.key)
+                    out.append(v)
+            core.fresh_impl()
+            journal = []
             continue
         if "session" in case:      # a recorded session (corpus / replayed suspect): judged on its own
             why = check_case(case)
@@ -281,7 +339,8 @@ def search(ctx, suspects, budget):
         else:
             journal.append(case)
     ul.reset_state()
-    ctx.notes.append("oracle: {} trees checked against Fraction dimensional analysis".format(n))
+    ctx.notes.append("oracle: {} cases checked against Fraction dimensional analysis, of which {} sessions in which definitions "
+                     "were active, used and cleared through the public API before the judged trees".format(n, n_sessions))
     return out
 
 
